@@ -412,6 +412,11 @@ def run(chk):
         chk.require(len(engines) == 1 and engines[0]["name"] == "generator", "R5", "exactly one random engine object exists in the library", where=engines[0]["loc"] if engines else "",
                     ok="engine 'generator'; distributions %s" % [n for n in names if n != "generator"], bad="engines: %s" % [s["name"] for s in engines],
                     variant=vn)
+        for e_ in engines:
+            chk.require(not e_.get("tls"), "R5", "the engine '%s' is one process-wide object (what tfhe_random_generator_setSeed seeds is what every thread draws from)" % e_["name"],
+                        where=e_["loc"], ok="static storage duration, not thread_local",
+                        bad="the engine is thread_local: tfhe_random_generator_setSeed seeds only the calling thread's copy; every other thread draws from a "
+                            "default-constructed engine, i.e. the same unseeded stream in each thread (identical keys, masks and ciphertexts)", variant=vn)
         pubs = [u for u in api.public_functions(v) if u in v.defs]
         reach = v.reachable(pubs)
         bad = []
